@@ -139,6 +139,19 @@ def rule_B1(ctx):
     c = [x for x in own_nodes(ad) if isinstance(x, ast.Call) and norm(x.func) == "char_akai_to_ascii"]
     ok = len(c) == 1 and find_try_handler(c[0], ad, {"InvalidCharacter"}) is not None and "ConstructError" in raises_in(find_try_handler(c[0], ad, {"InvalidCharacter"}).body)
     ctx.ob("B1", ad, "an invalid name byte becomes a ConstructError (the entry is skipped, not the whole listing)", ok, "", inst="AkaiString-decode")
+    # the name field itself: a fixed-size field, padded with the AKAI blank, from which exactly the trailing run of AKAI blanks (0x0A) is
+    # removed before decoding - nothing else (0x00 is the digit '0')
+    from ..core.layout import Layouts, Env as _LEnv, Describer as _Desc, Unknown as _Unk
+    Lx = Layouts(ctx)
+    try:
+        lay_ = Lx.eval_con(ast.parse("AkaiPaddedString(12)", mode="eval").body, _LEnv(ctx.prog.module(AS)))
+        lay_ = lay_[-1] if isinstance(lay_, tuple) else lay_
+        got_ = (lay_.desc(), _Desc(Lx).annotate(lay_))
+    except _Unk as e_:
+        raise AnalysisError("B1", f"{AS}:AkaiPaddedString", f"layout: {e_}")
+    ok = got_ == ("AkaiString(FixedSized(12,Padded(12,NullStripped(GreedyBytes()))))", ["AkaiString[]", "NullStripped[b:0a]"])
+    ctx.ob("B1", ctx.fn(AS, "AkaiPaddedString", "B1"), "an AKAI name field is `length` bytes of which only the trailing AKAI blanks (0x0A) are dropped", ok, "" if ok else f"{got_}",
+           inst="decode-field")
     ae = ctx.fn(AS, "AkaiString._encode", "B1")
     ctx.ob("B1", ae, "AkaiString encodes through char_ascii_to_akai", _rk(ctx, ae, "B1") == {f"char_ascii_to_akai({ae.args.args[1].arg})"}, "", inst="AkaiString-encode")
 
